@@ -64,10 +64,14 @@ func (c20) Enumerate(tier string, seed int64, yield func(string, core.Case) bool
 		return
 	}
 	scen.EnumWCNF(tier, func(text string, n int, hard, soft [][]int, softw []int) bool {
+		cs := caps[:2]
 		if len(hard)+len(soft) > 2 && tier != "thorough" {
-			return true
+			if n != 2 {
+				return true
+			}
+			cs = caps[1:2] // three-clause texts: buffered channel only in quick
 		}
-		for _, cp := range caps[:2] {
+		for _, cp := range cs {
 			if !yield("wcnf", conc.StreamCase{Kind: "wcnf", Text: text, N: n, Hard: hard, Soft: soft, SoftW: softw, Cap: cp}) {
 				return false
 			}
